@@ -9,16 +9,17 @@ from ..core import fp_watch
 
 PROPERTY = "C15"
 LEVEL = "exploration"
-LEVEL_TEXT = ("RNG-tap monitor: numpy.random.normal (the generator the code draws from) is wrapped so that every call's "
-              "loc, scale, size and returned noise are recorded; for each real noise_gauss / Weaver.noise call the "
-              "tapped scale must equal sqrt(mean(a^2)/SNR) (dB or linear, per sample for array snr) or the given std, "
-              "loc = 0, size = a.shape, and the result must be a + tapped noise bit for bit, length and x unchanged, "
-              "same seed -> same result. A statistical monitor (no tap needed) measures the empirical SNR and mean of "
+LEVEL_TEXT = ("RNG-tap monitor: the global generator's Gaussian entry points (numpy.random.normal, standard_normal, "
+              "randn) are wrapped so that every call's loc, scale, size and returned draw are recorded; for each real "
+              "noise_gauss / Weaver.noise call one draw of n values must have been taken and what was added to the "
+              "signal must be sqrt(mean(a^2)/SNR) (dB or linear, per sample for array snr; or the given std) times the "
+              "standardised draw - bit for bit when the deviation is passed to the generator as today, to rounding "
+              "when it is applied in another way - length and x unchanged, same seed -> same result. A statistical monitor (no tap needed) measures the empirical SNR and mean of "
               "out - a on series of 2*10^5 samples. Sampled.")
-LEVEL_NOTE = ("The tap observes the library boundary numpy.random.normal looked up at call time; if the code drew its "
-              "noise differently the tap clauses would be reported inconclusive while the statistical clause still "
+LEVEL_NOTE = ("The tap observes the library boundary numpy.random.* looked up at call time; if the code drew its "
+              "noise in several calls or from elsewhere the tap clauses would be reported inconclusive while the statistical clause still "
               "decides (|SNR error| <= 0.1 dB, |mean| <= 6 sigma / sqrt(N)).")
-TECHNIQUE = "RNG-tap runtime monitor on numpy.random.normal (arguments and returned noise) + statistical monitor on long series"
+TECHNIQUE = "RNG-tap runtime monitor on numpy.random.normal / standard_normal / randn (arguments and returned draw) + statistical monitor on long series"
 RULE = ("tapped calls: signals of 1..200 samples (non-constant, sign-changing, integer, tiny / large power) x snr scalar / "
         "list / array x dB / linear x explicit std, function and Weaver route; statistical runs: N = 2*10^5, snr in dB "
         "and linear, several signal shapes. non-trivial: non-constant signal whose mean(a^2) != mean(a)^2 and != 1; "
@@ -44,20 +45,76 @@ def plan(tier, seed):
 
 
 class Tap:
+    """records every draw from the global generator's Gaussian entry points (normal, standard_normal, randn)"""
+
     def __init__(self):
         self.calls = []
         self.orig = np.random.normal
+        self.orig_sn = np.random.standard_normal
+        self.orig_randn = np.random.randn
 
     def __enter__(self):
         def tapped(loc=0.0, scale=1.0, size=None):
             out = self.orig(loc=loc, scale=scale, size=size)
             self.calls.append({"loc": loc, "scale": scale, "size": size, "out": out})
             return out
+
+        def tapped_sn(size=None, *a, **k):
+            out = self.orig_sn(size, *a, **k)
+            self.calls.append({"loc": 0.0, "scale": 1.0, "size": size, "out": out})
+            return out
+
+        def tapped_randn(*dims):
+            out = self.orig_randn(*dims)
+            self.calls.append({"loc": 0.0, "scale": 1.0, "size": dims, "out": out})
+            return out
         np.random.normal = tapped
+        np.random.standard_normal = tapped_sn
+        np.random.randn = tapped_randn
         return self
 
     def __exit__(self, *a):
         np.random.normal = self.orig
+        np.random.standard_normal = self.orig_sn
+        np.random.randn = self.orig_randn
+
+
+def judge_draw(c, af, out, want, n):
+    """None when the tapped draw and the result agree with the statement, else (clause, detail).
+
+    Strong form first (what the code does today): the generator is asked for exactly the documented deviation and the
+    result is input + draw, bit for bit.  Otherwise the statement is judged on what was ADDED: with z the standardised
+    tapped draw, out - a must be want * z to rounding - however the deviation reached the samples (passed as the
+    generator's scale, or multiplied onto standard draws afterwards)."""
+    draw = np.asarray(c["out"], dtype=float)
+    if draw.shape != (n,):
+        return "noise_size", {"size": c["size"], "drawn_shape": list(draw.shape)}
+    loc = np.asarray(c["loc"], dtype=float)
+    sc = np.asarray(c["scale"], dtype=float)
+    wantf = np.asarray(want, dtype=float)
+    strong = sc.shape == wantf.shape and bool(np.all(np.abs(sc - wantf) <= 1e-9 * np.abs(wantf) + 1e-300)) and \
+        bool(np.all(loc == 0)) and np.array_equal(out, af + draw)
+    if strong:
+        return None
+    if sc.shape not in ((), (n,), (1,)) or wantf.shape not in ((), (n,), (1,)):
+        return "noise_scale", {"tapped_scale_shape": list(sc.shape), "want_shape": list(wantf.shape)}
+    scb = np.broadcast_to(sc, (n,))
+    wb = np.broadcast_to(wantf, (n,))
+    with np.errstate(all="ignore"):
+        z = np.where(scb > 0, (draw - loc) / np.where(scb > 0, scb, 1.0), 0.0)
+    if np.any((scb <= 0) & (wb > 0)):
+        return "noise_scale", {"tapped_scale": sc, "want": want, "why": "degenerate draw where noise is due"}
+    expect = wb * z
+    added = np.asarray(out, dtype=float) - af
+    tol = 1e-9 * np.abs(expect) + 8 * np.finfo(float).eps * (np.abs(af) + np.abs(expect)) + 1e-300
+    bad = np.abs(added - expect) > tol
+    if np.any(bad):
+        i = int(np.argmax(bad))
+        clause = "noise_not_zero_mean" if np.any(loc != 0) and not np.any(np.abs(added - loc - expect) > tol + 1e-9 * np.abs(loc)) \
+            else "noise_scale"
+        return clause, {"tapped_scale": sc, "tapped_loc": loc, "want": want, "at": i, "added": float(added[i]),
+                        "expected_added": float(expect[i])}
+    return None
 
 
 def gen_signal(rng, n):
@@ -208,18 +265,9 @@ def run_tapped_case(ctx, kind_, idx):
         s = np.asarray(snr, dtype=float)
         lin = 10.0 ** (s / 10.0) if kw.get("snr_in_db", True) else s
         want = np.sqrt(sp / lin)
-    got = np.asarray(c["scale"], dtype=float)
-    if got.shape != np.shape(want) or not np.all(np.abs(got - want) <= 1e-9 * np.abs(want) + 1e-300):
-        ctx.violation("noise_scale", cid, {"tapped_scale": got, "want": want, "signal_power": sp, "case": info})
-        return
-    if not (np.all(np.asarray(c["loc"]) == 0)):
-        ctx.violation("noise_not_zero_mean", cid, {"loc": c["loc"], "case": info})
-        return
-    if tuple(np.atleast_1d(c["size"]).tolist()) != (n,) if c["size"] is not None else True:
-        ctx.violation("noise_size", cid, {"size": c["size"], "case": info})
-        return
-    if not np.array_equal(out, af + c["out"]):
-        ctx.violation("result_not_input_plus_noise", cid, {"case": info})
+    verdict = judge_draw(c, af, out, want, n)
+    if verdict is not None:
+        ctx.violation(verdict[0], cid, dict(verdict[1], signal_power=sp, case=info))
         return
     # the signal power is that of the array's CURRENT content: same object again after an in-place change
     if not via_weaver and isinstance(ain, np.ndarray) and ain.flags.writeable and ain.dtype.kind == "f" and snr is not None \
@@ -228,16 +276,17 @@ def run_tapped_case(ctx, kind_, idx):
         ain *= factor
         with Tap() as tap2:
             np.random.seed(npseed)
-            noise_gauss(ain, snr, **kw)
+            outb = noise_gauss(ain, snr, **kw)
         ctx.monitor("c15:same_object_again")
         if len(tap2.calls) == 1:
             s_ = np.asarray(snr, dtype=float)
             lin_ = 10.0 ** (s_ / 10.0) if kw.get("snr_in_db", True) else s_
-            want2 = np.sqrt(float(np.mean(np.asarray(ain, dtype=float) ** 2)) / lin_)
-            got2 = np.asarray(tap2.calls[0]["scale"], dtype=float)
-            if got2.shape != np.shape(want2) or not np.all(np.abs(got2 - want2) <= 1e-9 * np.abs(want2) + 1e-300):
+            afb = np.asarray(ain, dtype=float)
+            want2 = np.sqrt(float(np.mean(afb ** 2)) / lin_)
+            v2 = judge_draw(tap2.calls[0], afb, outb, want2, n)
+            if v2 is not None:
                 ctx.violation("noise_scale_after_in_place_change_of_the_same_array", cid,
-                              {"factor": factor, "tapped_scale": got2, "want": want2, "case": info})
+                              dict(v2[1], factor=factor, clause=v2[0], case=info))
                 return
     # every request draws FRESH noise from the global generator: two requests in a row without re-seeding must not add
     # the same numbers (and the first of them is the seeded one again)
